@@ -40,6 +40,15 @@ PROPS = {
                 text="Gate failures independent of the draw (0 draws), re-exploit consumes no draw, otherwise exactly one; chance failure changes nothing / gains nothing / is exactly an undefined error; prob 1 never fails for u<1, prob 0 never succeeds for u>0; flags exclusive."),
     "C08": dict(module="C08", suites=DYN, technique=_T, note=_N, design_ref="DESIGN.md §8 C08",
                 text="Truthfulness (every entry of an observed row is 0 or the true entry, for any mask), minimality (rows other than the target / scanned rows are empty; failures and no-ops reveal nothing), completeness (entitlement table, groups copied in full), full observability, auxiliary row, initial observation - all proved for the model's observe."),
+    "C09": dict(module="C09", suites=["layout", "dyn"], technique=_T, design_ref="DESIGN.md §8 C09",
+                note="Theorems are about the model's encodeRow/vectorize/decodeRow/observe; the LAYOUT suite compares the implementation's *raw* tensors with both (so a shifted index constant is a disagreement even if the implementation stays self-consistent), on random scenarios incl. enlarged address bounds, generated and shipped ones; DYN compares every raw next-state tensor. Values multiples of 1/64.",
+                text="C09_layout_concat: writing through the index arithmetic of _update_vector_idxs equals the documented concatenation for all bounds and numbers of OS/services/processes; C09_decode_encode / C09_init_decodes: decoding reproduces every host; row length, aux row, row-major flattening index theorem."),
+    "C10": dict(module="C10", suites=["layout"], technique=_T, design_ref="DESIGN.md §8 C10",
+                note="Partial by nature: the value-level part (shapes, Box bounds covering every entry incl. negative host values, totality of action decoding) is proved in Lean; dtype float32, Box.contains, acceptance of NumPy scalars/arrays sampled from the spaces and the tuple shapes are Python runtime facts decided on the implementation by the LAYOUT suite in all 8 modes.",
+                text="C10_obs_shape / C10_flat_shape (advertised dims), C10_bounds_cover (low/high cover all host values of any sign, flags, access), C10_entries_small; runtime contract checked directly: every observation float32, right shape, contained in observation_space; step(action_space.sample()) accepted in both action modes."),
+    "C11": dict(module="C11", suites=["layout"], technique=_T, design_ref="DESIGN.md §8 C11",
+                note="Theorems about flatActions/decodeParam/actionMask of the model; LAYOUT compares the whole flat list token by token, every vector of the parameterised space (exhaustively when <= 4000/60000 vectors, sampled above) and the mask along walks, on random, generated and shipped scenarios.",
+                text="C11_flat_length (= advertised count), C11_flat_index (index i is slot i mod k of host i div k: nothing missing or duplicated, function of the scenario), C11_host_slots (costs, probs, service/process, OS, access as defined), C11_param_target / C11_param_in_flat / C11_param_exploit (wrapping, no-op for undefined combinations, first definition wins), C11_mask."),
     "C12": dict(module="C12", suites=DYN, technique=_T, design_ref="DESIGN.md §8 C12",
                 note=_N + " The model's transition function is mode-free, so the theorems are short; the substance is the correspondence of all 8 implementation modes to it plus direct cross-mode comparison on the implementation.",
                 text="genStep outputs other than the observation do not depend on fullyObs; trajectories of state and counter coincide for any op history (C12_history); equal decoded actions give equal steps; checked on the implementation in lock-step over all 8 mode combinations."),
